@@ -652,30 +652,10 @@ func touchedInBlock(b *BlockCtx, x *ord) bool {
 }
 
 func init() {
-	poolProfile := func(orders bool) Profile {
-		p := txProfile()
-		for k := range p.W {
-			p.W[k] = 1
-		}
-		for _, k := range []string{"sellpool", "buypool", "sellallpool", "addliq", "remliq", "createpool"} {
-			p.W[k] = 10
-		}
-		p.W["addorder"], p.W["remorder"] = 6, 3
-		p.W["dustorder"], p.W["fillorder"] = 2, 4
-		if orders {
-			p.W["addorder"], p.W["remorder"] = 25, 8
-			p.W["dustorder"], p.W["fillorder"] = 6, 14
-		}
-		p.PGasCustom = 0.3
-		p.PDup, p.PGarbage, p.PBadNonce, p.PBadSig = 0, 0, 0.01, 0.01
-		p.PBigAmt = 0.08
-		p.TxMin, p.TxMax = 1, 6
-		return p
-	}
 	register(&PropSpec{ID: "C13", Level: "exploration",
 		Rule: "pool-heavy histories (creation, liquidity changes, trades over 1..4 hop routes, orders at, above and below the pool price, commission swaps) with reserves from 10^2 to 10^7 coins and extreme ratios; oracles: per block the reserve product of every pool without liquidity transactions never falls and pools never vanish; per transaction (counterfactual twins) a removal returns at most the proportional share and burns exactly the stated pool tokens, an addition could not be removed at once for more than was put in; the 1000-unit creation lock at the zero address never decreases; distinct non-trivial case = distinct (tx kind, result code) pair of pool transactions",
 		Make: func(r *rand.Rand, seed int64, chain int, tier string) *Scenario {
-			sc := baseScenario("C13", r, seed, chain, tier, poolProfile(false), func(g *GenCfg, n *NodeCfg) {
+			sc := baseScenario("C13", r, seed, chain, tier, PoolProfile(false), func(g *GenCfg, n *NodeCfg) {
 				g.NPool = 3 + r.Intn(4)
 				g.NToken = 2 + r.Intn(4)
 				g.NCoin = r.Intn(3)
@@ -694,7 +674,7 @@ func init() {
 	register(&PropSpec{ID: "C14", Level: "exploration",
 		Rule: "order-heavy histories: makers place orders around the pool price on several pools, takers trade through 1..4 hop routes and custom commission coins, owners and strangers cancel, orders expire at the configured period, restarts of nothing (single node) but fresh probe nodes load books from disk; oracles per transaction (counterfactual twins): makers receive at least floor(sold*price)-1 per consumed order at the order's own price with refunds of closed remainders, partially filled orders keep their price within one unit and stay above the minimum volume, nothing ahead in the book (price at double precision, then id) is skipped, cancellation only by the owner, once, returning exactly the unfilled amount; per block: expiry exactly at the configured period with exact refund events; distinct non-trivial case = distinct (tx kind, result code) of order/trade transactions",
 		Make: func(r *rand.Rand, seed int64, chain int, tier string) *Scenario {
-			sc := baseScenario("C14", r, seed, chain, tier, poolProfile(true), func(g *GenCfg, n *NodeCfg) {
+			sc := baseScenario("C14", r, seed, chain, tier, PoolProfile(true), func(g *GenCfg, n *NodeCfg) {
 				g.NPool = 2 + r.Intn(3)
 				g.NToken = 2 + r.Intn(3)
 				n.ExpirePeriod = uint64(4 + r.Intn(14))
@@ -711,4 +691,26 @@ func init() {
 		Distinct: probeDistinct,
 		ExpectProbes: []string{"c14_order_placed", "c14_fill_checked", "c14_trade_with_fills", "c14_trade_with_several_fills", "c14_cancel_checked", "c14_expiry_checked", "c14_cancel_by_stranger_rejected", "c14_closed_remainder_refund_checked", "c14_equal_price_neighbours_consumed"},
 	})
+}
+
+// PoolProfile is the pool / order-book heavy workload (also a swarm flavour of C09 / C10).
+func PoolProfile(orders bool) Profile {
+	p := txProfile()
+	for k := range p.W {
+		p.W[k] = 1
+	}
+	for _, k := range []string{"sellpool", "buypool", "sellallpool", "addliq", "remliq", "createpool"} {
+		p.W[k] = 10
+	}
+	p.W["addorder"], p.W["remorder"] = 6, 3
+	p.W["dustorder"], p.W["fillorder"] = 2, 4
+	if orders {
+		p.W["addorder"], p.W["remorder"] = 25, 8
+		p.W["dustorder"], p.W["fillorder"] = 6, 14
+	}
+	p.PGasCustom = 0.3
+	p.PDup, p.PGarbage, p.PBadNonce, p.PBadSig = 0, 0, 0.01, 0.01
+	p.PBigAmt = 0.08
+	p.TxMin, p.TxMax = 1, 6
+	return p
 }
